@@ -170,11 +170,11 @@ for h, t, b in [
  ("c19_qgrams_a1_q2_n3", 14, "qgrams/rev_qgrams, |A|=1, q=2, text length 3"),
  ("c19_qgrams_a3_q2_n4", 23, "qgrams/rev_qgrams, |A|=3, q=2, all texts of length 4"),
  ("c19_qgrams_a5_q2_n4", 33, "qgrams/rev_qgrams, |A|=5, q=2, all texts of length 4"),
- ("c19_qgidx_a3_q2_n4", 60, "QGramIndex, |A|=3, q=2, all texts of length 4, symbolic position"),
- ("c19_qgidx_a5_q2_n4", 90, "QGramIndex, |A|=5, q=2, all texts of length 4"),
+ ("c19_qgidx_a3_q2_n4", 400, "QGramIndex, |A|=3, q=2, all texts of length 4, symbolic position"),
+ ("c19_qgidx_a5_q2_n4", 400, "QGramIndex, |A|=5, q=2, all texts of length 4"),
 ]:
     add(h, t, b, role="qgram")
-add("c19_qgidx_a3_q1_n4", 67, "QGramIndex, |A|=3, q=1, all texts of length 4", role="qgram", min_covers=1)
+add("c19_qgidx_a3_q1_n4", 400, "QGramIndex, |A|=3, q=1, all texts of length 4", role="qgram", min_covers=1)
 
 # ---------------------------------------------------------------------------------------------------------------- C15
 add = prop("C15", "c15",
